@@ -5,32 +5,22 @@ open Hal
 
 theorem lo32_id (x : Int) (h : -(2 ^ 31) ≤ x ∧ x < 2 ^ 31) : lo32 x = x := by unfold lo32; omega
 
-theorem byConstTerm_avx_eq (a b : Int) (ha : -(2 ^ 31) ≤ a ∧ a < 2 ^ 31) (hb : -(2 ^ 31) ≤ b ∧ b < 2 ^ 31) :
-    byConstTerm true a b = byConstTerm false a b := by
-  unfold byConstTerm
-  simp only [if_true, Bool.false_eq_true, if_false]
+/-- the lane product before patch 34 agreed with `wrapping_mul` only on operands that fit in `i32` -/
+theorem byConstTermOldLane_eq (a b : Int) (ha : -(2 ^ 31) ≤ a ∧ a < 2 ^ 31) (hb : -(2 ^ 31) ≤ b ∧ b < 2 ^ 31) :
+    byConstTermOldLane a b = byConstTerm true a b := by
+  unfold byConstTerm byConstTermOldLane
   rw [lo32_id a ha, lo32_id b hb]
   have h1 : -(2 ^ 62) ≤ a * b ∧ a * b ≤ 2 ^ 62 := by
     constructor <;> nlinarith [ha.1, ha.2, hb.1, hb.2]
   unfold w64; omega
 
-/-- **FFT64Avx `cnv_by_const_apply` = FFT64Ref** when every operand fits in `i32` (what `_mm256_mul_epi32` needs) -/
-theorem cnvByConst_avx_eq_ref (K rs off : Nat) (a : Col) (b : List Int)
-    (ha : ∀ j i, -(2 ^ 31) ≤ (limbOr0 (2 * 2 ^ K) a j).getD i 0 ∧ (limbOr0 (2 * 2 ^ K) a j).getD i 0 < 2 ^ 31)
-    (hb : ∀ j, -(2 ^ 31) ≤ b.getD j 0 ∧ b.getD j 0 < 2 ^ 31) :
-    cnvByConst true K rs off a b = cnvByConst false K rs off a b := by
-  unfold cnvByConst
-  simp only [byConstTerm_avx_eq _ _ (ha _ _) (hb _)]
+/-- **FFT64Avx `cnv_by_const_apply` = FFT64Ref on ALL inputs** (after patch 34: both lanes are `wrapping_mul`) -/
+theorem cnvByConst_avx_eq_ref (K rs off : Nat) (a : Col) (b : List Int) :
+    cnvByConst true K rs off a b = cnvByConst false K rs off a b := rfl
 
-/-- …and differs beyond: a digit `3·10^9 ≥ 2^31` times the constant `3` (the witness replayed on the implementation) -/
-theorem cnvByConst_avx_counterexample :
-    cnvByConst true 2 1 0 [[3000000000, 1, -3000000000, 5, 6, 7, 8, 9]] [3] ≠
-    cnvByConst false 2 1 0 [[3000000000, 1, -3000000000, 5, 6, 7, 8, 9]] [3] := by
-  intro h
-  have e1 : cnvByConst true 2 1 0 [[3000000000, 1, -3000000000, 5, 6, 7, 8, 9]] [3] = .ok [[-3884901888, 3, 3884901888, 15, 18, 21, 24, 27]] := by rfl
-  have e2 : cnvByConst false 2 1 0 [[3000000000, 1, -3000000000, 5, 6, 7, 8, 9]] [3] = .ok [[9000000000, 3, -9000000000, 15, 18, 21, 24, 27]] := by rfl
-  rw [e1, e2] at h
-  injection h with h
-  revert h; decide
+/-- the OLD lane (`_mm256_mul_epi32`) on the witness of the repaired defect: a digit `3·10^9 ≥ 2^31` times the constant `3` -/
+theorem byConstTermOldLane_counterexample :
+    byConstTermOldLane 3000000000 3 = -3884901888 ∧ byConstTerm true 3000000000 3 = 9000000000 ∧
+    byConstTermOldLane 3000000000 3 ≠ byConstTerm true 3000000000 3 := by decide
 
 end Fft64Cnv
